@@ -392,15 +392,47 @@ fn domain(times: &[u64], periods: &[u64], rescheds: &[u64], pends: &[bool]) -> V
     d
 }
 
+// watchdog: a stepping call that never returns (C08: "every stepping call returns") burns no fuel when the loop it spins
+// in calls no stub. The scenario being run is kept here; a thread reports it if it is still the same after 5 s.
+static WD_TICK: AtomicU64 = AtomicU64::new(0);
+static WD_CUR: Mutex<Option<Scenario>> = Mutex::new(None);
+fn watchdog() {
+    std::thread::spawn(|| {
+        let mut last = u64::MAX;
+        let mut same = 0;
+        loop {
+            std::thread::sleep(Duration::from_millis(250));
+            let t = WD_TICK.load(AtomicOrdering::Relaxed);
+            if t == last {
+                same += 1;
+            } else {
+                same = 0;
+                last = t;
+            }
+            if same >= 20 {
+                let cur = WD_CUR.lock().unwrap().clone();
+                if let Some(sc) = cur {
+                    println!("{{\"scenarios\":{},\"samples\":[],\"bound\":\"exploration stopped at the first call that did not return\",\"failures\":[{{\"check\":\"stepping-call-returns\",\"props\":\"C08\",\"count\":1,\"scenario\":{},\"expected\":{},\"detail\":\"the call had not returned after 5 s (every other scenario takes microseconds)\"}}]}}",
+                        t, scenario_json(&sc), expect_json(&reference(&sc)));
+                    std::process::exit(0);
+                }
+            }
+        }
+    });
+}
+
 fn main() {
     let thorough = std::env::args().any(|a| a == "--thorough");
     panic::set_hook(Box::new(|_| {})); // panics are caught and reported per scenario
+    watchdog();
     let mut total = 0u64;
     let mut first: BTreeMap<&'static str, (String, String, String, String)> = BTreeMap::new();
     let mut counts: BTreeMap<&'static str, u64> = BTreeMap::new();
     let mut samples: Vec<String> = Vec::new();
     let mut run = |sc: &Scenario| {
         total += 1;
+        *WD_CUR.lock().unwrap() = Some(sc.clone());
+        WD_TICK.fetch_add(1, AtomicOrdering::Relaxed);
         // a few of the explored scenarios, with what the property statements demand, are written out as samples
         if total % 20011 == 7 && samples.len() < 12 {
             samples.push(format!("{{\"scenario\":{},\"expected\":{}}}", scenario_json(sc), expect_json(&reference(sc))));
